@@ -99,3 +99,26 @@ impl ProgramLines {
         lines
     }
 }
+
+#[cfg(feature = "verif-hooks")]
+impl ProgramLines {
+    /// Stored lines in ascending key order of the token map, rendered token by token.
+    pub(crate) fn verif_lines(&self) -> Vec<(u64, Vec<String>)> {
+        let mut lines = self
+            .numbered_lines
+            .iter()
+            .map(|(number, tokens)| {
+                (
+                    *number,
+                    tokens.iter().map(|token| format!("{:?}", token)).collect(),
+                )
+            })
+            .collect::<Vec<_>>();
+        lines.sort_by_key(|(number, _)| *number);
+        lines
+    }
+
+    pub(crate) fn verif_sorted_index_keys(&self) -> Vec<u64> {
+        self.sorted_line_numbers.iter().copied().collect()
+    }
+}
